@@ -2,6 +2,7 @@
 # tools/mk_seed_env.sh <TAG> <PROP> [sc|rs]: scratch worktree /tmp/wt-<TAG> (+ shim env /tmp/env-<TAG> for sc) and prompt /tmp/prompt_<TAG>.txt
 set -e
 TAG=$1; PROP=$2; KIND=${3:-rs}
+[ -f /tmp/props/$PROP.txt ] || python3 /verif/tools/seed_prompts/props_txt.py
 git -C /repo worktree add --detach /tmp/wt-$TAG HEAD >/dev/null 2>&1
 if [ "$KIND" = sc ]; then
   mkdir -p /tmp/env-$TAG
